@@ -90,6 +90,9 @@ def run(ck):
 
 def replay(ck, path):
     obj = json.load(open(path))
+    if obj.get("origin") == "generator":      # a generated document with its expected units (checks/c08gen.py)
+        import c08gen
+        return c08gen.replay(ck, obj)
     ck.cov["samples"] = [{"input": obj["input"], "inline": obj.get("inline")}]
     ck.cov["evaluations"] = 1
     if reproduce(ck, obj["input"], obj.get("inline")):
